@@ -268,10 +268,27 @@ Ltac key_goal n :=
   Lemma den_bv_lit c c' out w ws : cx_inv c -> cx_run_op (CoBvLit w ws) c = (c', CxOk out) -> cx_denotes (cx_keys c') (cx_types c') (cx_strings c') (CoBvLit w ws) out = true.
   Proof. intros Inv H. start H. lit_inv Inv. exact Key. Qed.
 
-  Lemma den_bit_vec_val c c' out v w : cx_inv c -> cx_run_op (CoBitVecVal v w) c = (c', CxOk out) -> cx_denotes (cx_keys c') (cx_types c') (cx_strings c') (CoBitVecVal v w) out = true.
-  Proof. intros Inv H. unfold cx_run_op, cx_bit_vec_val, cx_lit_value in H. start H. lit_inv Inv. exact Key. Qed.
+  Lemma words_of_low_word w v : w <= 64 -> w <> 0 -> cx_words_of w (v mod cx_word_base) = cx_words_of w v.
+Proof.
+  intros Hw H0. unfold cx_words_of.
+  assert (E : cx_nwords w = 1).
+  { unfold cx_nwords. symmetry. apply N.div_unique with (r := w - 1); lia. }
+  rewrite E. change (N.to_nat 1) with 1%nat. cbn [cx_digits].
+  rewrite N.mod_mod by discriminate. reflexivity.
+Qed.
 
-  Lemma den_zero c c' out w : cx_inv c -> cx_run_op (CoZero w) c = (c', CxOk out) -> cx_denotes (cx_keys c') (cx_types c') (cx_strings c') (CoZero w) out = true.
+Lemma den_bit_vec_val c c' out v w : cx_inv c -> cx_run_op (CoBitVecVal v w) c = (c', CxOk out) -> cx_denotes (cx_keys c') (cx_types c') (cx_strings c') (CoBitVecVal v w) out = true.
+Proof.
+  intros Inv H. unfold cx_run_op, cx_bit_vec_val, cx_lit_value in H. unfold cx_as_expr in H.
+  apply bind_ok in H as (c1 & r & H & Hret). apply ret_ok in Hret as (-> & ->).
+  apply bind_ok in H as (c2 & u & Ha & H). apply assert_ok in Ha as (-> & Hw0).
+  apply negb_true_iff in Hw0. apply N.eqb_neq in Hw0.
+  cbn [cx_denotes]. destruct (w <=? 64) eqn:Hle; run_inv2; lit_inv Inv.
+  - apply N.leb_le in Hle. now rewrite <- (words_of_low_word w v Hle Hw0).
+  - exact Key.
+Qed.
+
+Lemma den_zero c c' out w : cx_inv c -> cx_run_op (CoZero w) c = (c', CxOk out) -> cx_denotes (cx_keys c') (cx_types c') (cx_strings c') (CoZero w) out = true.
   Proof. intros Inv H. unfold cx_run_op, cx_zero, cx_lit_value in H. start H. lit_inv Inv. exact Key. Qed.
 
   Lemma den_one c c' out w : cx_inv c -> cx_run_op (CoOne w) c = (c', CxOk out) -> cx_denotes (cx_keys c') (cx_types c') (cx_strings c') (CoOne w) out = true.
